@@ -27,7 +27,7 @@ REQUIRED = ["contract:Assertion.mvrs_to_data", "contract:Assertion.set_p_values"
             "datum_equal_to_u_seen", "datum_zero_seen", "style_filter_checked", "cards_filtered_out_by_style",
             "test_u_checked", "positive_margin_assertions", "supermajority_u_assorter_not_1",
             "stratum:uniform_pool_nonrepresentable_bound", "u_at_test_time_checked", "stale_u_before_set_p_values",
-            "margin_revised_after_set_margin_from_cvrs"]
+            "margin_revised_after_set_margin_from_cvrs", "assorters_evaluated_on_all_cards_before_the_audit"]
 ASSUMPTIONS = ["sample_threshold has been set by a draw (n_c >= 1) before mvrs_to_data is called under style",
                "the bound clause is asserted for every margin the simulator produces (also non-positive ones: the data are "
                "still inside [0,u])"]
@@ -77,8 +77,17 @@ def post_mvrs_to_data(rec, result, a, k, old):
     con = self.contest
     if at != "POLLING" and cvr_sample is not None:
         if con.use_style:
+            # which cards list the contest is taken from the reference population of the simulated election (own listing
+            # or pool membership) when the workload provides it - not from the record objects, which a careless
+            # evaluation may have changed in the meantime; under the repository's own suite: from the records
+            sim = getattr(rec, "current_sim", None)
+            if sim is not None and con.id in sim.contests:
+                listed = {sim.cvr_list[i].id for i in sim.ref_population(con.id)}
+                lists = lambda cv: cv.id in listed
+            else:
+                lists = lambda cv: cv.has_contest(con.id)
             pos = [i for i in range(len(mvr_sample))
-                   if cvr_sample[i].has_contest(con.id) and (use_all or cvr_sample[i].sample_num <= con.sample_threshold)]
+                   if lists(cvr_sample[i]) and (use_all or cvr_sample[i].sample_num <= con.sample_threshold)]
             rec.count("style_filter_checked")
             rec.count("cards_filtered_out_by_style", len(mvr_sample) - len(pos))
         else:
@@ -220,6 +229,17 @@ def run_case(es, rec):
         rec.case(es, nontrivial=False, sample=brief(es))
         return
     rng = random.Random(es.get("_sizes_seed", 0))
+    rec.current_sim = sim
+    if rng.random() < 0.3:
+        # a diluted-margin query before the audit: every assorter evaluated on EVERY card, also those lacking the contest
+        # (use_style False); asking a question must not change the records
+        with np.errstate(all="ignore"):
+            for con in sim.contests.values():
+                for asn in con.assertions.values():
+                    ok, _ = rec.guard("c06.call:mean:no_style", asn.assorter.mean, sim.cvr_list, False)
+                    if not ok:
+                        return
+        rec.count("assorters_evaluated_on_all_cards_before_the_audit")
     sim.assign_sample_nums()
     sizes = gen_sizes(rng, sim)
     sim.set_sizes(sizes)
